@@ -1,4 +1,5 @@
 import EV.Proofs.HeaderCacheInv
+import EV.Proofs.HeaderCacheProgress
 
 /-!
 # C11 — Every merkle proof the server hands out verifies against the current chain
@@ -17,11 +18,23 @@ Composition (DESIGN.md §6 C11):
     `system` (every tx of every block, by hash and by position, classic and TSC, folded by an
     independent verifier against the header's merkle root, after every phase of every history).
  3. *Which* list, header proofs — **this file**: model `EV/Model/HeaderCache.lean`: any number of
-    concurrent `block.header(height, cp)` requests, each a program counter over the awaits of
-    `MerkleCache.branch_and_root` / `_extend_to` / `_level_for`, every read cut into issue /
-    perform in a worker thread against the hashes visible *then* / deliver; back-outs cut into
-    their two effects (lowering `DB.state`, `header_mc.truncate`) in the order of the code; new
-    blocks.  Theorems, for **all** event sequences and any number of requests:
+    concurrent `block.header(height, cp)` / `block.headers(start, count, cp)` requests, each the
+    WHOLE handler: a program counter over the handler's own header read, then the awaits of
+    `MerkleCache.branch_and_root` / `_extend_to` / `_level_for`, then the consistency check of the
+    reply and the re-read; every read cut into issue / perform in a worker thread against the
+    hashes visible *then* / deliver; back-outs cut into their two effects (lowering `DB.state`,
+    `header_mc.truncate`) in the order of the code; new blocks.  Headers are modelled by their
+    hashes.  Theorems, for **all** event sequences and any number of requests:
+      * `C11_reply_safe`      the WHOLE reply `(headers, branch, root)`: branch and root are those of
+                              ONE chain visible during the request, and the last header folds
+                              along the branch to the root (composed fold statement; no hypothesis
+                              on the hash)
+      * `C11_reply_header`    … and that header IS the block at the proven height of that very chain,
+                              if the hash has no collision a fold could meet (`Cancel`)
+      * `C11_reply_chunk`, `C11_plain_reply`
+                              all headers of a `block.headers` reply; replies without proof
+      * `C11_header_progress` a request inside the chain that runs alone from a quiescent state is
+                              answered within four read round trips
       * `C11_header_safe`     every answer is the from-scratch branch and Bitcoin merkle root of
                               the first `cp+1` hashes of a chain that was visible during the request
       * `C11_header_current`  … of the chain visible at the moment of the answer, when no back-out
@@ -32,14 +45,17 @@ Composition (DESIGN.md §6 C11):
                               out-of-range requests are refused; a request ends refused, with an
                               error, or with an answer satisfying the safety clause
       * `seen_sound`          the ghost history `Req.seen` is what it is said to be
-    and the pinned code violates the property in three ways, each fixed by its own commit:
+    and the pinned code violates the property in four ways, each fixed by its own commit:
+      * `F24_counterexample`  header read and proof in separate awaits, a reorganisation in between:
+                              orphaned header with the proof of the new chain
       * `F17_counterexample`  two extensions in flight (`_extend_to` without the `cached_length` test)
       * `F18_counterexample`  `flush_backup` truncating before it lowers `DB.state`
       * `F19_counterexample`  a truncation between `_extend_to` and `_level_for` of one request
-Tie to the code: suite `headercache` (the real `_merkle_proof` → `header_branch_and_root` →
-`MerkleCache` → `fs_block_hashes` → `read_headers` coroutines, reads performed and delivered under
-the control of the event sequence; the real `flush_backup` in a second thread held between its two
-effects) and suite `system` (real server).
+Tie to the code: suite `headercache` (the real `block_header` / `block_headers` → `raw_header` →
+`read_headers`, `_merkle_proof` → `header_branch_and_root` → `MerkleCache` → `fs_block_hashes` →
+`read_headers` coroutines, reads performed and delivered under the control of the event sequence;
+the real `reorg_chain` with its back-up job in a second thread held between its two effects) and
+suite `system` (real server).
 -/
 namespace EV.HeaderCache
 open EV.Merkle
@@ -47,38 +63,6 @@ open EV.Merkle
 variable {Node : Type} (H : Node → Node → Node)
 
 /-! ## the ghost history is what it is said to be (every variant of the code) -/
-
-theorem enterExtend_ghost (c : Cache Node) (T : Nat) (r : Req Node) :
-    (enterExtend c T r).seen = r.seen ∧ (enterExtend c T r).bo = r.bo ∧
-      (enterExtend c T r).length = r.length ∧ (enterExtend c T r).index = r.index := by
-  unfold enterExtend; split <;> exact ⟨rfl, rfl, rfl, rfl⟩
-
-theorem finish_ghost (cfg : Cfg) (c : Cache Node) (T : Nat) (r : Req Node)
-    (res : Except PyExc (List (Elt Node) × Node)) :
-    (finish cfg c T r res).seen = r.seen ∧ (finish cfg c T r res).bo = r.bo ∧
-      (finish cfg c T r res).length = r.length ∧ (finish cfg c T r res).index = r.index := by
-  unfold finish
-  split
-  · exact ⟨rfl, rfl, rfl, rfl⟩
-  · split
-    · exact enterExtend_ghost c T _
-    · exact ⟨rfl, rfl, rfl, rfl⟩
-
-theorem deliverReq_ghost [DecidableEq Node] (cfg : Cfg) (c : Cache Node) (T : Nat) (r : Req Node) :
-    (deliverReq H cfg c T r).2.seen = r.seen ∧ (deliverReq H cfg c T r).2.bo = r.bo ∧
-      (deliverReq H cfg c T r).2.length = r.length ∧ (deliverReq H cfg c T r).2.index = r.index := by
-  unfold deliverReq
-  repeat' split
-  all_goals first
-    | exact ⟨rfl, rfl, rfl, rfl⟩
-    | exact enterExtend_ghost c T r
-    | exact enterExtend_ghost _ T r
-    | exact finish_ghost cfg c T r _
-
-theorem performReq_ghost (c : Cache Node) (src : List Node) (r : Req Node) :
-    (performReq c src r).seen = r.seen ∧ (performReq c src r).bo = r.bo ∧
-      (performReq c src r).length = r.length ∧ (performReq c src r).index = r.index := by
-  unfold performReq; split <;> exact ⟨rfl, rfl, rfl, rfl⟩
 
 theorem see_seen (S : List Node) (r : Req Node) :
     (r.see S).seen = r.seen ∨ ((r.see S).seen = S :: r.seen ∧ r.active = true) := by
@@ -133,9 +117,11 @@ theorem seen_sound [DecidableEq Node] (cfg : Cfg) (s : St Node) (ev : Ev Node) :
     intro i r' hi hr'
     rw [List.getElem?_eq_none hi] at hr'
     cases hr'
-  cases ev with
-  | start cp height =>
-    simp only [step]
+  have hnew : ∀ x : Req Node, x.seen = [s.src] →
+      (∀ (i : Nat) (r : Req Node), s.reqs[i]? = some r → ∃ r' : Req Node, (s.reqs ++ [x])[i]? = some r' ∧
+        (r'.seen = r.seen ∨ (r'.seen = s.src :: r.seen ∧ r.active = true))) ∧
+      (∀ (i : Nat) (r' : Req Node), s.reqs.length ≤ i → (s.reqs ++ [x])[i]? = some r' → r'.seen = [s.src]) := by
+    intro x hx
     refine ⟨fun i r hr => ⟨r, ?_, Or.inl rfl⟩, ?_⟩
     · have hlt : i < s.reqs.length := by
         by_contra hc
@@ -148,11 +134,11 @@ theorem seen_sound [DecidableEq Node] (cfg : Cfg) (s : St Node) (ev : Ev Node) :
         rw [hk] at hr'
         simp only [List.getElem?_cons_zero, Option.some.injEq] at hr'
         subst hr'
-        unfold newReq
-        split
-        · exact (enterExtend_ghost _ _ _).1
-        · rfl
+        exact hx
       | succ k => rw [hk] at hr'; simp at hr'
+  cases ev with
+  | header height cp => exact hnew _ rfl
+  | headers first count cp => exact hnew _ rfl
   | perform j =>
     simp only [step]
     split
@@ -162,7 +148,7 @@ theorem seen_sound [DecidableEq Node] (cfg : Cfg) (s : St Node) (ev : Ev Node) :
     simp only [step]
     split
     · exact ⟨hid, hidnew⟩
-    · next r0 hj => exact ⟨hset j r0 _ _ hj (deliverReq_ghost H _ _ _ _).1, hsetnew j _ _⟩
+    · next r0 hj => exact ⟨hset j r0 _ _ hj (deliverAll_seen H _ _ _ _ _).1, hsetnew j _ _⟩
   | boBegin n =>
     simp only [step]
     split
@@ -260,7 +246,8 @@ theorem ref_window [DecidableEq Node] (s : St Node) (hinv : Inv H s) :
     · simp only [fixed_lowerFirst, if_true]; exact hinv.quiet hp
     · exact hinv.quiet hp
   · cases ev with
-    | start cp height => rfl
+    | header height cp => rfl
+    | headers first count cp => rfl
     | perform i => simp only [step]; split <;> rfl
     | deliver i => simp only [step]; split <;> rfl
     | boBegin m => simp only [step, hp]; simp
@@ -289,41 +276,335 @@ theorem C11_header_proof [DecidableEq Node] (s : St Node) (evs : List (Ev Node))
 
 /-! ## refusal -/
 
-/-- **C11 (requests outside the chain are refused).**  Whatever the variant of the code: a request
-whose checkpoint is beyond the visible chain (or below its height) at the range check is refused at
-once and changes nothing else; a request inside is not refused. -/
-theorem C11_header_refused [DecidableEq Node] (cfg : Cfg) (s : St Node) (cp height : Nat) :
-    (step H cfg s (.start cp height)).c = s.c ∧
-    (step H cfg s (.start cp height)).truncations = s.truncations ∧
-    (step H cfg s (.start cp height)).src = s.src ∧
-    ∃ r, (step H cfg s (.start cp height)).reqs = s.reqs ++ [r] ∧ r.length = cp + 1 ∧ r.index = height ∧
-      (¬ (height ≤ cp ∧ cp < s.src.length) → r.pc = .done .refused) ∧
-      ((height ≤ cp ∧ cp < s.src.length) → r.active = true) := by
-  refine ⟨rfl, rfl, rfl, _, rfl, ?_⟩
-  unfold newReq
-  split
-  · next hin =>
-    refine ⟨(enterExtend_ghost _ _ _).2.2.1, (enterExtend_ghost _ _ _).2.2.2, fun h => absurd hin h, fun _ => ?_⟩
-    unfold beginIter enterExtend
-    split <;> rfl
-  · next hout => exact ⟨rfl, rfl, fun _ => rfl, fun h => absurd h hout⟩
+/-- **C11 (starting a request).**  Whatever the variant of the code: the start of a
+`block_header(height, cp)` / `block_headers(first, count, cp)` request changes nothing but the list
+of requests; the new request waits for its header read and has seen the visible chain. -/
+theorem C11_header_started [DecidableEq Node] (cfg : Cfg) (s : St Node) (kind : Handler) (first count cp : Nat) :
+    (step H cfg s (.header first cp)).c = s.c ∧ (step H cfg s (.headers first count cp)).c = s.c ∧
+    (step H cfg s (.header first cp)).src = s.src ∧ (step H cfg s (.headers first count cp)).src = s.src ∧
+    (step H cfg s (.header first cp)).reqs =
+      s.reqs ++ [newReq s.truncations s.src s.pending.isSome .header first 1 cp] ∧
+    (step H cfg s (.headers first count cp)).reqs =
+      s.reqs ++ [newReq s.truncations s.src s.pending.isSome .headers first count cp] ∧
+    (newReq s.truncations s.src s.pending.isSome kind first count cp).pc = .hdr .issued ∧
+    (newReq s.truncations s.src s.pending.isSome kind first count cp).length = cp + 1 ∧
+    (newReq s.truncations s.src s.pending.isSome kind first count cp).seen = [s.src] :=
+  ⟨rfl, rfl, rfl, rfl, rfl, rfl, rfl, rfl, rfl⟩
+
+/-- **C11 (requests outside the chain are refused).**  Whatever the variant of the code, when the
+handler's header read is delivered (`hs` = the headers it returned, `vis` = the number of visible
+hashes at that moment, i.e. `db.state.height + 1`, `cp = length - 1`):
+`block_header`: no header at `height` → refused; `cp = 0` → the header alone; else the range check
+`height ≤ cp < vis`: outside → refused at once, inside → the request enters the proof with
+`index = height`.  `block_headers`: nothing read or `cp = 0` → the headers alone; else the range
+check for the last header read, `first + |hs| − 1`. -/
+theorem C11_header_refused (c : Cache Node) (T vis : Nat) (r : Req Node) (hs : List Node) :
+    (r.kind = .header →
+      (hs.length ≠ 1 → (afterHdr c T vis r hs).pc = .done .refused) ∧
+      (hs.length = 1 → r.length = 1 →
+        (afterHdr c T vis r hs).pc = .done .plain ∧ (afterHdr c T vis r hs).hdrs = hs) ∧
+      (hs.length = 1 → r.length ≠ 1 → ¬ (r.first < r.length ∧ r.length ≤ vis) →
+        (afterHdr c T vis r hs).pc = .done .refused) ∧
+      (hs.length = 1 → r.length ≠ 1 → (r.first < r.length ∧ r.length ≤ vis) →
+        (afterHdr c T vis r hs).proving = true ∧ (afterHdr c T vis r hs).hdrs = hs ∧
+          (afterHdr c T vis r hs).index = r.first)) ∧
+    (r.kind = .headers →
+      (hs.length = 0 ∨ r.length = 1 →
+        (afterHdr c T vis r hs).pc = .done .plain ∧ (afterHdr c T vis r hs).hdrs = hs) ∧
+      (¬ (hs.length = 0 ∨ r.length = 1) → ¬ (r.first + hs.length - 1 < r.length ∧ r.length ≤ vis) →
+        (afterHdr c T vis r hs).pc = .done .refused) ∧
+      (¬ (hs.length = 0 ∨ r.length = 1) → (r.first + hs.length - 1 < r.length ∧ r.length ≤ vis) →
+        (afterHdr c T vis r hs).proving = true ∧ (afterHdr c T vis r hs).hdrs = hs ∧
+          (afterHdr c T vis r hs).index = r.first + hs.length - 1)) := by
+  have hin : ∀ r0 : Req Node, (r0.index < r0.length ∧ r0.length ≤ vis) →
+      (enterProof c T vis r0).proving = true ∧ (enterProof c T vis r0).hdrs = r0.hdrs ∧
+        (enterProof c T vis r0).index = r0.index := by
+    intro r0 h
+    unfold enterProof beginIter enterExtend
+    rw [if_pos h]
+    split <;> exact ⟨rfl, rfl, rfl⟩
+  have hout : ∀ r0 : Req Node, ¬ (r0.index < r0.length ∧ r0.length ≤ vis) →
+      (enterProof c T vis r0).pc = .done .refused := by
+    intro r0 h
+    unfold enterProof
+    rw [if_neg h]
+  refine ⟨fun hk => ?_, fun hk => ?_⟩
+  · unfold afterHdr
+    split
+    case h_2 hk' => rw [hk] at hk'; cases hk'
+    refine ⟨fun h1 => by simp only [h1, ne_eq, not_false_eq_true, if_true],
+      fun h1 h2 => by simp only [h1, h2, ne_eq, not_true_eq_false, if_false, if_true, and_self],
+      fun h1 h2 h3 => ?_, fun h1 h2 h3 => ?_⟩
+    · simp only [h1, h2, ne_eq, not_true_eq_false, if_false]
+      exact hout { r with hdrs := hs, index := r.first } h3
+    · simp only [h1, h2, ne_eq, not_true_eq_false, if_false]
+      exact hin { r with hdrs := hs, index := r.first } h3
+  · unfold afterHdr
+    split
+    case h_1 hk' => rw [hk] at hk'; cases hk'
+    refine ⟨fun h1 => by simp only [h1, if_true, and_self], fun h1 h3 => ?_, fun h1 h3 => ?_⟩
+    · simp only [h1, if_false]
+      exact hout { r with hdrs := hs, index := r.first + hs.length - 1 } h3
+    · simp only [h1, if_false]
+      exact hin { r with hdrs := hs, index := r.first + hs.length - 1 } h3
+
+/-- the delivery of a header read is `afterHdr` and touches nothing else (every variant) -/
+theorem deliver_hdr [DecidableEq Node] (cfg : Cfg) (s : St Node) (i : Nat) (r : Req Node) (hs : List Node)
+    (hr : s.reqs[i]? = some r) (hpc : r.pc = .hdr (.got hs)) :
+    step H cfg s (.deliver i) =
+      { s with reqs := s.reqs.set i (afterHdr s.c s.truncations s.src.length r hs) } := by
+  simp only [step, hr, deliverAll, hpc]
 
 /-- **C11 (never a wrong answer).**  However a request ends — in every reachable state — it was
-refused, it failed with an error, or it returned an answer that satisfies the safety clause. -/
+refused, it failed with an error, it returned headers without a proof, or it returned an answer
+that satisfies the safety clause. -/
 theorem C11_header_never_wrong [DecidableEq Node] (s : St Node) (evs : List (Ev Node)) (h0 : Init H s) :
     ∀ r ∈ (run H Cfg.fixed s evs).reqs, ∀ res, r.pc = .done res →
-      res = .refused ∨ (∃ e, res = .error e) ∨
+      res = .refused ∨ (∃ e, res = .error e) ∨ res = .plain ∨
       ∃ br root, res = .answer br root ∧ ∃ S ∈ r.seen, r.length ≤ S.length ∧
         branchAndRoot H (S.take r.length) (.int r.index) none false = .ok (br, root) := by
   intro r hr res hpc
   cases res with
   | refused => exact Or.inl rfl
   | error e => exact Or.inr (Or.inl ⟨e, rfl⟩)
+  | plain => exact Or.inr (Or.inr (Or.inl rfl))
   | answer br root =>
     obtain ⟨S, hS, hlen, hbar, _⟩ := C11_header_safe H s evs h0 r hr br root hpc
-    exact Or.inr (Or.inr ⟨br, root, rfl, S, hS, hlen, hbar⟩)
+    exact Or.inr (Or.inr (Or.inr ⟨br, root, rfl, S, hS, hlen, hbar⟩))
 
-/-! ## non-vacuity, and the three ways the pinned code violates the property -/
+/-! ## the reply as a whole (F24) -/
+
+theorem branchNodes_map (nodes : List Node) : branchNodes (nodes.map Elt.node) = nodes := by
+  induction nodes with
+  | nil => rfl
+  | cons x rest ih => simp only [List.map_cons, branchNodes, ih]
+
+/-- **C11 (the whole reply verifies, and against a chain that was visible).**  Every completed reply
+`(headers, branch, root)` of a `block_header(height, cp)` / `block_headers(first, count, cp)` request
+— after any event sequence, with any number of requests, reorganisations between the header read
+and the proof included — satisfies, for ONE chain `S` that was visible at some moment between the
+request's start and its answer (`S ∈ seen`, `seen_sound`) and reaches the checkpoint:
+ * `(branch, root)` is the from-scratch branch and root of `S[:cp+1]` at the proven height `index`,
+   and `root` is the Bitcoin merkle root of `S[:cp+1]` (`C11_header_safe`);
+ * the branch consists of nodes only, and **the reply folds**: `root_from_proof(h, branch, index) =
+   root` for the last header `h` of the reply (as its hash) — what the client checks; this is the
+   composed fold statement, by the consistency check of the handler;
+ * the block hash `x` of `S` at `index` folds along the same branch to the same root (C12 `bar_fold`).
+No property of the hash function is used.  (`C11_reply_header` adds `h = x` from collision-freedom.) -/
+theorem C11_reply_safe [DecidableEq Node] (s : St Node) (evs : List (Ev Node)) (h0 : Init H s) :
+    ∀ r ∈ (run H Cfg.fixed s evs).reqs, ∀ br root, r.pc = .done (.answer br root) →
+      ∃ S ∈ r.seen, r.length ≤ S.length ∧ r.index < r.length ∧
+        branchAndRoot H (S.take r.length) (.int r.index) none false = .ok (br, root) ∧
+        (∃ hne, root = merkleRoot H (S.take r.length) hne) ∧
+        ∃ (h x : Node) (nodes : List Node), r.hdrs.getLast? = some h ∧ S[r.index]? = some x ∧
+          br = nodes.map .node ∧
+          rootFromProof H h nodes r.index = .ok root ∧ rootFromProof H x nodes r.index = .ok root := by
+  intro r hr br root hpc
+  obtain ⟨S, hS, hlen, hbar, hroot⟩ := C11_header_safe H s evs h0 r hr br root hpc
+  obtain ⟨_, h2⟩ := branchAndRoot_ok_range H hbar
+  have htl : (S.take r.length).length = r.length := by rw [List.length_take]; omega
+  have hidx : r.index < (S.take r.length).length := by omega
+  obtain ⟨nodes, r', hb, hf⟩ := bar_fold H (S.take r.length) r.index hidx
+  rw [hbar] at hb
+  injection hb with hb
+  injection hb with hbr hrt
+  subst hrt
+  have hfolds := ((inv_run H s evs h0.inv).hdrs r hr).folds
+  unfold Req.Folds at hfolds
+  rw [hpc] at hfolds
+  simp only at hfolds
+  cases hl : r.hdrs.getLast? with
+  | none => rw [hl] at hfolds; exact hfolds.elim
+  | some h =>
+    rw [hl] at hfolds
+    simp only at hfolds
+    rw [hbr, branchNodes_map] at hfolds
+    have hx : (S.take r.length)[r.index] = S[r.index]'(by omega) := List.getElem_take
+    refine ⟨S, hS, hlen, by omega, hbar, hroot, h, S[r.index]'(by omega), nodes, rfl,
+      List.getElem?_eq_getElem (by omega), hbr, hfolds, ?_⟩
+    rw [← hx]; exact hf
+
+/-- `hash_func(a + b)` has no collision a fold could meet: if two inputs that agree in one half
+hash to the same value, they agree in the other half too.  (Implied by collision-freedom of
+SHA-256d on 64-byte inputs; true of every injective `H`.) -/
+def Cancel (H : Node → Node → Node) : Prop :=
+  (∀ e a b, H e a = H e b → a = b) ∧ (∀ e a b, H a e = H b e → a = b)
+
+theorem rfpLoop_inj (hc : Cancel H) (br : List Node) :
+    ∀ (a b : Node) (i : Int), (rfpLoop H a br i).1 = (rfpLoop H b br i).1 → a = b := by
+  induction br with
+  | nil => intro a b i h; exact h
+  | cons e rest ih =>
+    intro a b i h
+    simp only [rfpLoop] at h
+    have h' := ih _ _ _ h
+    by_cases hi : i % 2 = 1
+    · simp only [hi, if_true] at h'; exact hc.1 e a b h'
+    · simp only [hi, if_false] at h'; exact hc.2 e a b h'
+
+/-- two leaves that fold along the same branch at the same index to the same root are equal -/
+theorem rootFromProof_inj (hc : Cancel H) {a b r : Node} {br : List Node} {i : Int}
+    (ha : rootFromProof H a br i = .ok r) (hb : rootFromProof H b br i = .ok r) : a = b := by
+  unfold rootFromProof at ha hb
+  split at ha
+  · cases ha
+  · split at hb
+    · cases hb
+    · injection ha with ha
+      injection hb with hb
+      exact rfpLoop_inj H hc br a b i (ha.trans hb.symm)
+
+/-- **C11 (the header of the reply is the header of the chain proven — F24 fixed).**  If the hash
+function has no collision a fold could meet (`Cancel`), then in every completed reply the last
+header `h` — the one at height `index = first + |headers| − 1`, which for `block_header` is the only
+header and `index = height` — IS the block (hash) at that height of the very chain `S` whose first
+`cp+1` hashes `(branch, root)` are computed from, and `S` was visible at some moment between the
+request's start and its answer.  An orphaned header with the proof of another chain is impossible,
+also under reorganisations A → B → A (the check is on the contents, not on a second read). -/
+theorem C11_reply_header [DecidableEq Node] (hc : Cancel H) (s : St Node) (evs : List (Ev Node)) (h0 : Init H s) :
+    ∀ r ∈ (run H Cfg.fixed s evs).reqs, ∀ br root, r.pc = .done (.answer br root) →
+      ∃ S ∈ r.seen, r.length ≤ S.length ∧
+        branchAndRoot H (S.take r.length) (.int r.index) none false = .ok (br, root) ∧
+        (∃ hne, root = merkleRoot H (S.take r.length) hne) ∧
+        r.hdrs ≠ [] ∧ r.hdrs.getLast? = S[r.index]? ∧ r.index = r.first + r.hdrs.length - 1 ∧
+        (r.kind = .header → r.hdrs.length = 1 ∧ r.index = r.first) := by
+  intro r hr br root hpc
+  obtain ⟨S, hS, hlen, _, hbar, hroot, h, x, nodes, hh, hx, _, hf1, hf2⟩ :=
+    C11_reply_safe H s evs h0 r hr br root hpc
+  have hne : r.hdrs ≠ [] := by intro he; rw [he] at hh; cases hh
+  have hok := (inv_run H s evs h0.inv).hdrs r hr
+  have hidx : r.index = r.first + r.hdrs.length - 1 := by
+    rcases hok.hidx with h1 | h1
+    · exact absurd h1 hne
+    · exact h1
+  refine ⟨S, hS, hlen, hbar, hroot, hne, ?_, hidx, fun hk => ?_⟩
+  · rw [hh, hx, rootFromProof_inj H hc hf1 hf2]
+  · obtain ⟨A, _, hA⟩ := hok.hsrc (by rw [hpc]; trivial)
+    have hcount := hok.one hk
+    have hle : r.hdrs.length ≤ 1 := by
+      rw [hA, hcount, srcSlice, List.length_take]; omega
+    have hpos : 0 < r.hdrs.length := List.length_pos_iff.mpr hne
+    exact ⟨by omega, by omega⟩
+
+/-- **C11 (replies without a proof).**  A reply without a proof (`cp_height = 0`, or no header in
+range) consists of the headers ONE read returned: `A[first : first+count]` for a chain `A` that was
+visible during the request. -/
+theorem C11_plain_reply [DecidableEq Node] (s : St Node) (evs : List (Ev Node)) (h0 : Init H s) :
+    ∀ r ∈ (run H Cfg.fixed s evs).reqs, r.pc = .done .plain →
+      ∃ A ∈ r.seen, r.hdrs = srcSlice A r.first r.count :=
+  fun r hr hpc => ((inv_run H s evs h0.inv).hdrs r hr).hplain hpc
+
+/-- **C11 (all headers of a `block_headers` reply).**  The headers of a reply with a proof were
+returned by ONE read of a chain `A` visible during the request (`headers = A[first : first+count]`);
+the proof is of the last one.  If chains are linked by their hashes — two visible chains with the
+same block hash at a height have the same hashes below it (`hlink`; true of real block chains,
+each header contains the hash of its predecessor) — and the hash is `Cancel`, then ALL headers of
+the reply are the blocks `first … index` of the chain `S` the proof is computed from. -/
+theorem C11_reply_chunk [DecidableEq Node] (hc : Cancel H) (s : St Node) (evs : List (Ev Node)) (h0 : Init H s) :
+    ∀ r ∈ (run H Cfg.fixed s evs).reqs, ∀ br root, r.pc = .done (.answer br root) →
+      (hlink : ∀ A ∈ r.seen, ∀ S ∈ r.seen, ∀ i x, A[i]? = some x → S[i]? = some x →
+        A.take (i + 1) = S.take (i + 1)) →
+      ∃ S ∈ r.seen, r.length ≤ S.length ∧
+        branchAndRoot H (S.take r.length) (.int r.index) none false = .ok (br, root) ∧
+        r.hdrs = (S.take (r.index + 1)).drop r.first := by
+  intro r hr br root hpc hlink
+  obtain ⟨S, hS, hlen, hbar, _, hne, hlast, hidx, _⟩ := C11_reply_header H hc s evs h0 r hr br root hpc
+  have hok := (inv_run H s evs h0.inv).hdrs r hr
+  obtain ⟨A, hAm, hA⟩ := hok.hsrc (by rw [hpc]; trivial)
+  refine ⟨S, hS, hlen, hbar, ?_⟩
+  have hpos : 0 < r.hdrs.length := List.length_pos_iff.mpr hne
+  have hlenA : r.hdrs.length = min r.count (A.length - r.first) := by
+    rw [hA, srcSlice, List.length_take, List.length_drop]
+  have hiA : r.index < A.length := by omega
+  -- the last header read is `A[index]`
+  have hlastA : r.hdrs.getLast? = A[r.index]? := by
+    rw [List.getLast?_eq_getElem?]
+    have h1 : r.hdrs[r.hdrs.length - 1]? = (srcSlice A r.first r.count)[r.hdrs.length - 1]? :=
+      congrArg (fun l => l[r.hdrs.length - 1]?) hA
+    rw [h1, srcSlice, List.getElem?_take_of_lt (by omega), List.getElem?_drop]
+    congr 1
+    omega
+  have hx : A[r.index]? = some (A[r.index]'hiA) := List.getElem?_eq_getElem hiA
+  have heq := hlink A hAm S hS r.index _ hx (by rw [← hlast, hlastA, hx])
+  -- `headers = (A[:index+1])[first:]`
+  have hA' : r.hdrs = (A.take (r.index + 1)).drop r.first := by
+    rw [List.drop_take]
+    refine hA.trans ?_
+    rw [srcSlice]
+    by_cases hcase : r.count ≤ A.length - r.first
+    · congr 1; omega
+    · rw [List.take_of_length_le (by rw [List.length_drop]; omega),
+        List.take_of_length_le (by rw [List.length_drop]; omega)]
+  rw [hA', heq]
+
+/-! ## progress -/
+
+/-- `k` read round trips of request `i` with nothing in between -/
+def rounds (i : Nat) : Nat → List (Ev Node)
+  | 0 => []
+  | k + 1 => .perform i :: .deliver i :: rounds i k
+
+theorem step_solo [DecidableEq Node] (s : St Node) (i : Nat) (r : Req Node) (hr : s.reqs[i]? = some r) :
+    step H Cfg.fixed (step H Cfg.fixed s (.perform i)) (.deliver i) =
+      { s with c := (soloStep H s.src s.truncations (s.c, r)).1,
+               reqs := s.reqs.set i (soloStep H s.src s.truncations (s.c, r)).2 } := by
+  have hlt : i < s.reqs.length := by
+    by_contra hc
+    rw [List.getElem?_eq_none (by omega)] at hr; cases hr
+  simp only [step, hr, List.getElem?_set_self hlt, soloStep, List.set_set]
+
+theorem run_solo [DecidableEq Node] (i : Nat) :
+    ∀ (k : Nat) (s : St Node) (r : Req Node), s.reqs[i]? = some r →
+      (run H Cfg.fixed s (rounds i k)).reqs[i]? = some (soloRun H s.src s.truncations k (s.c, r)).2 := by
+  intro k
+  induction k with
+  | zero => intro s r hr; exact hr
+  | succ k ih =>
+    intro s r hr
+    have hlt : i < s.reqs.length := by
+      by_contra hc
+      rw [List.getElem?_eq_none (by omega)] at hr; cases hr
+    show (run H Cfg.fixed (step H Cfg.fixed (step H Cfg.fixed s (.perform i)) (.deliver i)) (rounds i k)).reqs[i]? = _
+    rw [step_solo H s i r hr]
+    exact ih _ (soloStep H s.src s.truncations (s.c, r)).2 (List.getElem?_set_self hlt)
+
+/-- **C11 (progress).**  In every state that satisfies the invariant (every reachable state,
+`inv_run`) and in which no back-out is half done, a `block_header(height, cp)` request inside the
+chain (`height ≤ cp < len(visible chain)`, `cp ≠ 0`) that is scheduled alone — its reads performed
+and delivered, nothing else in between: in particular it meets no back-out — is ANSWERED after at
+most four read round trips (header, [cache extension], leaf hashes, [level]): no read comes back
+short, nothing raises, the consistency check of the reply passes.  By `C11_reply_header` (applied
+to the longer event list) that answer is header and proof of the visible chain.  So a model in
+which every delivery failed would not satisfy this. -/
+theorem C11_header_progress [DecidableEq Node] (s : St Node) (hinv : Inv H s) (hq : s.pending = none)
+    (height cp : Nat) (h1 : height ≤ cp) (h2 : 0 < cp) (h3 : cp < s.src.length) :
+    ∃ k, k ≤ 4 ∧ ∃ r br root,
+      (run H Cfg.fixed s (.header height cp :: rounds s.reqs.length k)).reqs[s.reqs.length]? = some r ∧
+      r.pc = .done (.answer br root) := by
+  have hc : CacheInv H s.c s.src := by have := hinv.cache; rw [hinv.quiet hq] at this; exact this
+  obtain ⟨k, hk, br, root, hans⟩ := solo_answered H s.c s.truncations s.src s.pending.isSome height cp hc h1 h2 h3
+  refine ⟨k, hk, _, br, root, ?_, hans⟩
+  show (run H Cfg.fixed (step H Cfg.fixed s (.header height cp)) (rounds s.reqs.length k)).reqs[s.reqs.length]? = _
+  have hnew : (step H Cfg.fixed s (.header height cp)).reqs[s.reqs.length]? =
+      some (newReq s.truncations s.src s.pending.isSome .header height 1 cp) := by
+    simp only [step, List.getElem?_append_right (Nat.le_refl _), Nat.sub_self, List.getElem?_cons_zero]
+  exact run_solo H s.reqs.length k _ _ hnew
+
+/-- the same for every reachable state -/
+theorem C11_header_progress_reachable [DecidableEq Node] (s0 : St Node) (evs : List (Ev Node)) (h0 : Init H s0)
+    (hq : (run H Cfg.fixed s0 evs).pending = none)
+    (height cp : Nat) (h1 : height ≤ cp) (h2 : 0 < cp) (h3 : cp < (run H Cfg.fixed s0 evs).src.length) :
+    ∃ k, k ≤ 4 ∧ ∃ r br root,
+      (run H Cfg.fixed s0 (evs ++ .header height cp :: rounds (run H Cfg.fixed s0 evs).reqs.length k)).reqs[
+        (run H Cfg.fixed s0 evs).reqs.length]? = some r ∧
+      r.pc = .done (.answer br root) := by
+  obtain ⟨k, hk, r, br, root, hr, hpc⟩ :=
+    C11_header_progress H _ (inv_run H s0 evs h0.inv) hq height cp h1 h2 h3
+  refine ⟨k, hk, r, br, root, ?_, hpc⟩
+  rw [← hr]
+  simp only [run, List.foldl_append]
+
+/-! ## non-vacuity, and the ways the pinned code violates the property -/
 
 /-- Cantor pairing: an *injective* stand-in for the hash on `Nat`, so two different trees have
 different roots -/
@@ -339,20 +620,33 @@ def s9 : St Nat := { c := (({} : Cache Nat).init Hc src9 4).1, src := src9, ref 
 theorem s9_init : Init Hc s9 :=
   ⟨(cache_init Hc {} src9 4 (by decide) (by decide)).2, rfl, rfl, rfl⟩
 
+/-- the hypothesis `Cancel` of `C11_reply_header` is satisfiable: the free term constructor (the
+hash the suites use) has no collision at all -/
+example : Cancel T.n :=
+  ⟨fun _ _ _ h => by injection h, fun _ _ _ h => by injection h⟩
+
 instance (r : Req Nat) : Decidable (r.Safe Hc) := by
   unfold Req.Safe
   split <;> infer_instance
 
-/-- F17: A = `block.header(0, cp=8)` and B = `block.header(0, cp=5)` both above the cache (4): both
-extension reads in flight; A's `_extend_to(9)` finishes, then B's shorter one. -/
+instance (r : Req Nat) : Decidable (r.Folds Hc) := by
+  unfold Req.Folds
+  split
+  · split <;> infer_instance
+  · infer_instance
+
+/-- F17: A = `block.header(0, cp=8)` and B = `block.header(0, cp=5)` both above the cache (4) (their
+header reads done at once): both extension reads in flight; A's `_extend_to(9)` finishes, then B's
+shorter one. -/
 def evsF17 : List (Ev Nat) :=
-  [.start 8 0, .start 5 0, .perform 0, .perform 1, .deliver 0, .deliver 1,
-   .perform 0, .deliver 0, .perform 0, .deliver 0]
+  startAtomic 0 8 0 ++ startAtomic 0 5 1 ++
+  [.perform 0, .perform 1, .deliver 0, .deliver 1, .perform 0, .deliver 0, .perform 0, .deliver 0]
 
 /-- **F17 (pinned `_extend_to`: no `cached_length` test).**  B's extension writes
 `level[2:] = level(h4,h5)` and `length = 6` over A's longer one; A's `_level_for(9)` then takes
 `level[:4]` of a 3-entry level and returns a root over the hashes 0–5 and 8: not the root of any
-chain.  (`lowerFirst`, `retry` as in the current code: no reorganisation is involved.) -/
+chain.  (The other flags as in the current code: no reorganisation is involved, and the consistency
+check of the reply passes — the wrong proof is self-consistent.) -/
 theorem F17_counterexample :
     (run Hc { extFix := false } s9 evsF17).reqs.map (fun r => decide (r.Safe Hc)) = [false, true] ∧
     (run Hc { extFix := false } s9 evsF17).c.length = 6 := by decide
@@ -360,9 +654,9 @@ theorem F17_counterexample :
 /-- F18: a back-out to 7 hashes begins; a request for `cp = 8` starts between its two halves,
 extends the cache, the back-out ends, two new blocks arrive, a second request for `cp = 8`. -/
 def evsF18 : List (Ev Nat) :=
-  [.boBegin 7, .start 8 0, .perform 0, .deliver 0, .boEnd, .append [27, 28],
-   .perform 0, .deliver 0, .perform 0, .deliver 0,
-   .start 8 0, .perform 1, .deliver 1, .perform 1, .deliver 1, .perform 1, .deliver 1]
+  [.boBegin 7] ++ startAtomic 0 8 0 ++ [.perform 0, .deliver 0, .boEnd, .append [27, 28],
+   .perform 0, .deliver 0, .perform 0, .deliver 0] ++
+  startAtomic 0 8 1 ++ [.perform 1, .deliver 1, .perform 1, .deliver 1, .perform 1, .deliver 1]
 
 /-- **F18 (pinned `flush_backup`: `truncate` before `DB.state` is lowered).**  The request
 started in the window passes the range check against the not-yet-lowered state, re-reads the
@@ -379,7 +673,7 @@ theorem F18_counterexample :
 /-- F19: one request for `cp = 8`; its extension completes (cache 9); while it waits for its leaf
 hashes a back-out to 5 hashes truncates the cache to 4 and four new blocks arrive. -/
 def evsF19 : List (Ev Nat) :=
-  [.start 8 1, .perform 0, .deliver 0, .boBegin 5, .boEnd, .append [25, 26, 27, 28],
+  startAtomic 1 8 0 ++ [.perform 0, .deliver 0, .boBegin 5, .boEnd, .append [25, 26, 27, 28],
    .perform 0, .deliver 0, .perform 0, .deliver 0]
 
 /-- **F19 (pinned `branch_and_root`: one pass, no truncation check).**  `_level_for(9)` takes
@@ -389,20 +683,84 @@ segment is intact. -/
 theorem F19_counterexample :
     (run Hc { retry := false } s9 evsF19).reqs.map (fun r => decide (r.Safe Hc)) = [false] := by decide
 
-/-- the same three schedules under the current code: every request that has ended is safe (as the
+/-- F24: `block.header(7, cp=8)`; its header read is performed (hash 17, the block at height 7);
+before the result is delivered a reorganisation replaces the blocks at heights 7 and 8 (back-out
+to 7 hashes, two new blocks 27, 28); the header read is delivered, the range check passes against
+the new chain, and the proof is computed entirely from the new chain. -/
+def evsF24 : List (Ev Nat) :=
+  [.header 7 8, .perform 0, .boBegin 7, .boEnd, .append [27, 28], .deliver 0,
+   .perform 0, .deliver 0, .perform 0, .deliver 0]
+
+/-- **F24 (pinned `block_header` / `block_headers`: no consistency check of the reply).**  The
+proof part is right — `(branch, root)` is the from-scratch proof for height 7 of the chain
+`10,…,16,27,28` that is visible (`Safe`) — but the reply's header is the orphaned block 17, not the
+block 27 at height 7 of that chain: the reply does not fold (`Folds` fails), it verifies against no
+chain. -/
+theorem F24_counterexample :
+    (run Hc { hdrCheck := false } s9 evsF24).reqs.map
+      (fun r => (decide (r.Safe Hc), decide (r.Folds Hc), r.hdrs, r.index, r.active)) =
+      [(true, false, [17], 7, false)] ∧
+    (run Hc { hdrCheck := false } s9 evsF24).src = [10, 11, 12, 13, 14, 15, 16, 27, 28] := by decide
+
+/-- the same schedule under the current code: the check fails (the request is back at its header
+read), the header is read again, the proof recomputed, and the reply — header 27 — folds -/
+example :
+    (run Hc Cfg.fixed s9 evsF24).reqs.map (fun r => (r.pc, r.hdrs)) = [(.hdr .issued, [17])] ∧
+    (run Hc Cfg.fixed s9 (evsF24 ++ [.perform 0, .deliver 0, .perform 0, .deliver 0])).reqs.map
+      (fun r => (decide (r.Safe Hc), decide (r.Folds Hc), r.hdrs, r.index, r.active)) =
+      [(true, true, [27], 7, false)] := by decide
+
+/-- a reorganisation A → B → A between the header read and the proof: the check passes, rightly —
+the reply is header and proof of chain A, which was visible during the request -/
+example :
+    (run Hc Cfg.fixed s9 ([.header 7 8, .perform 0, .boBegin 7, .boEnd, .append [27, 28], .boBegin 7, .boEnd,
+      .append [17, 18], .deliver 0, .perform 0, .deliver 0, .perform 0, .deliver 0])).reqs.map
+      (fun r => (decide (r.Safe Hc), decide (r.Folds Hc), r.hdrs, r.active)) = [(true, true, [17], false)] := by
+  decide
+
+/-- `block_headers(5, 10, cp=8)`: four headers (heights 5–8, the count is clipped by the chain), the
+proof is of the last one; after a reorganisation of the last two blocks between the read and the
+proof the pinned code returns headers 15,16,17,18 with the proof of block 28 … -/
+example :
+    (run Hc { hdrCheck := false } s9 [.headers 5 10 8, .perform 0, .boBegin 7, .boEnd, .append [27, 28],
+      .deliver 0, .perform 0, .deliver 0, .perform 0, .deliver 0]).reqs.map
+      (fun r => (decide (r.Safe Hc), decide (r.Folds Hc), r.hdrs, r.index, r.active)) =
+      [(true, false, [15, 16, 17, 18], 8, false)] := by decide
+
+/-- … and the current code reads them again: 15,16,27,28 -/
+example :
+    (run Hc Cfg.fixed s9 [.headers 5 10 8, .perform 0, .boBegin 7, .boEnd, .append [27, 28],
+      .deliver 0, .perform 0, .deliver 0, .perform 0, .deliver 0,
+      .perform 0, .deliver 0, .perform 0, .deliver 0]).reqs.map
+      (fun r => (decide (r.Safe Hc), decide (r.Folds Hc), r.hdrs, r.index, r.active)) =
+      [(true, true, [15, 16, 27, 28], 8, false)] := by decide
+
+/-- the three older schedules under the current code: every request that has ended is safe (as the
 theorem says), and answers do occur (the theorem is not vacuous) -/
 example :
     (run Hc Cfg.fixed s9 evsF17).reqs.map (fun r => (decide (r.Safe Hc), r.active)) = [(true, false), (true, true)] ∧
     (run Hc Cfg.fixed s9 evsF18).reqs.map (fun r => (decide (r.Safe Hc), r.active)) = [(true, false), (true, false)] ∧
     (run Hc Cfg.fixed s9 (evsF19 ++ [.perform 0, .deliver 0, .perform 0, .deliver 0])).reqs.map
-      (fun r => (decide (r.Safe Hc), r.active, r.bo)) = [(true, false, true)] := by decide
+      (fun r => (decide (r.Safe Hc), decide (r.Folds Hc), r.active, r.bo)) = [(true, true, false, true)] := by decide
 
 /-- `C11_header_current` is not vacuous: a request that no back-out overlapped, answered -/
-example : (run Hc Cfg.fixed s9 [.start 8 0, .perform 0, .deliver 0, .perform 0, .deliver 0]).reqs.map
+example : (run Hc Cfg.fixed s9 (startAtomic 0 8 0 ++ [.perform 0, .deliver 0, .perform 0, .deliver 0])).reqs.map
     (fun r => (r.bo, r.active, r.seen.head?)) = [(false, false, some src9)] := by decide
 
-/-- the refusal clause is not vacuous -/
-example : (step Hc Cfg.fixed s9 (.start 9 0)).reqs.map (·.pc) = [.done .refused] ∧
-    (step Hc Cfg.fixed s9 (.start 3 4)).reqs.map (·.pc) = [.done .refused] := by decide
+/-- the hypotheses of `C11_header_progress` are satisfiable -/
+example : ∃ k, k ≤ 4 ∧ ∃ r br root,
+    (run Hc Cfg.fixed s9 (.header 7 8 :: rounds 0 k)).reqs[0]? = some r ∧ r.pc = .done (.answer br root) :=
+  C11_header_progress Hc s9 s9_init.inv rfl 7 8 (by decide) (by decide) (by decide)
+
+/-- the refusal clauses are not vacuous: checkpoint beyond the chain, checkpoint below the height,
+no header at the height; and replies without proof -/
+example : (run Hc Cfg.fixed s9 (startAtomic 0 9 0)).reqs.map (·.pc) = [.done .refused] ∧
+    (run Hc Cfg.fixed s9 (startAtomic 4 3 0)).reqs.map (·.pc) = [.done .refused] ∧
+    (run Hc Cfg.fixed s9 (startAtomic 9 0 0)).reqs.map (·.pc) = [.done .refused] ∧
+    (run Hc Cfg.fixed s9 (startAtomic 8 0 0)).reqs.map (fun r => (r.pc, r.hdrs)) = [(.done .plain, [18])] ∧
+    (run Hc Cfg.fixed s9 [.headers 7 5 0, .perform 0, .deliver 0]).reqs.map (fun r => (r.pc, r.hdrs)) =
+      [(.done .plain, [17, 18])] ∧
+    (run Hc Cfg.fixed s9 [.headers 9 5 8, .perform 0, .deliver 0]).reqs.map (fun r => (r.pc, r.hdrs)) =
+      [(.done .plain, [])] := by decide
 
 end EV.HeaderCache
